@@ -47,14 +47,18 @@ Lemma nth_repeat {A} (a d : A) k i : nth i (repeat a k) d = a \/ nth i (repeat a
 Proof. revert i; induction k; intros [|i]; cbn; auto. Qed.
 
 Lemma nth_error_repeat {A} (a : A) k i v : nth_error (repeat a k) i = Some v -> v = a.
-Proof. revert i; induction k; intros [|i]; cbn; try discriminate; [congruence|auto]. Qed.
+Proof.
+  revert i; induction k as [|k IH]; intros [|i]; cbn; intros H; try discriminate.
+  - congruence.
+  - eauto.
+Qed.
 
 Lemma items_init c s : items_of (init c) s = [].
 Proof. unfold items_of, init; cbn. destruct (nth_repeat (@nil item) [] (n_senders c) s); auto. Qed.
 
 Lemma Inv_init c : Inv c (init c).
 Proof.
-  constructor; cbn.
+  constructor.
   - apply repeat_length.
   - apply repeat_length.
   - intros s it H (cur & m & E & _). discriminate.
@@ -65,7 +69,7 @@ Proof.
   - intros s j id key tm H. rewrite items_init in H. destruct j; discriminate.
   - intros s j t H. rewrite items_init in H. destruct j; discriminate.
   - intros s j id key tm [[]|[]].
-  - tauto.
+  - cbn. tauto.
   - intros [|? post] cid snap pre H; discriminate.
 Qed.
 
@@ -185,6 +189,5 @@ Proof.
       as (post0 & -> & H0).
     apply cut_ok_mono with (x := x); auto.
     + intros s. exists []. rewrite app_nil_r. reflexivity.
-    + intros bi s j Hb Ho. left. cbn in Hb. auto.
     + intros e s j He Ho. left. destruct (HE _ He) as [(w & ->)|(b & -> & Hb)]; [discriminate|eauto].
 Qed.
